@@ -347,7 +347,7 @@ func TestC16(t *testing.T) {
 						z.HTTPErr[key] = 400
 						ops = append(ops, "fail_http:"+key)
 					} else {
-						z.RCode[key] = rapid.SampledFrom([]int{2, 5}).Draw(t, "fail_rc")
+						z.RCode[key] = rapid.SampledFrom([]int{2, 5, 6, 9, 16, 23}).Draw(t, "fail_rc")
 						ops = append(ops, "fail_rcode:"+key)
 					}
 					z.Unlock()
